@@ -97,47 +97,47 @@ def Req.noCredential (q : Req) : Bool :=
   A *world* is the live WebAuth password plus the set of session cookies this Application has issued; tornado's cookie
   signing is abstracted as: a presented cookie verifies iff it is one of those. -/
 
-abbrev Bytes := List UInt8
+abbrev Str := List UInt8
 
 /-- `WebAuth.configure` when `web_password` is updated to `v`; `fresh` is the `secrets.token_hex(16)` it would draw.
     `none`: OptionsError (the option change is rejected, `_password` keeps its value) -/
-def configure (hashOk : Bytes → Bool) (v fresh : Bytes) : Option Bytes :=
+def configure (hashOk : Str → Bool) (v fresh : Str) : Option Str :=
   if v.head? = some 36 then (if hashOk v then some v else none)     -- startswith("$"): must be an argon2 hash
   else some (if v.isEmpty then fresh else v)                         -- `web_password or secrets.token_hex(16)`
 
 /-- `WebAuth.is_valid_password` -/
-def isValidPassword (verify : Bytes → Bytes → Bool) (σ pw : Bytes) : Bool :=
+def isValidPassword (verify : Str → Str → Bool) (σ pw : Str) : Bool :=
   if σ.head? = some 36 then verify σ pw else σ == pw                 -- hasher.verify / hmac.compare_digest
 
 inductive TokenArg
-  | absent | undecodable | text (t : Bytes)
+  | absent | undecodable | text (t : Str)
 deriving DecidableEq, Repr
 
 /-- one request as the wrapper reads it -/
 structure RawReq where
   method : Method
   cookie : Option Nat             -- the auth cookie presented, if its signature verifies: which issued cookie it is
-  authorization : Option Bytes    -- the Authorization header text
+  authorization : Option Str    -- the Authorization header text
   token : TokenArg                -- the `token` argument
   sfs : Sfs
   xsrfOk : Bool
 deriving DecidableEq, Repr
 
 /-- `str.partition(" ")`: text before the first space, text after it -/
-def partitionSp : Bytes → Bytes × Bytes
+def partitionSp : Str → Str × Str
   | [] => ([], [])
   | c :: r => if c = 32 then ([], r) else let (a, b) := partitionSp r; (c :: a, b)
 
-def sBearer : Bytes := [66, 101, 97, 114, 101, 114]
+def sBearer : Str := [66, 101, 97, 114, 101, 114]
 
 /-- `if auth_scheme == "Bearer": password = auth_params` (empty when the header is absent or of another scheme) -/
-def headerPassword (q : RawReq) : Bytes :=
+def headerPassword (q : RawReq) : Str :=
   match q.authorization with
   | some h => if (partitionSp h).1 = sBearer then (partitionSp h).2 else []
   | none => []
 
 /-- the password the wrapper ends up checking; `none`: `get_argument` raised HTTPError(400) -/
-def extractPassword (q : RawReq) : Option Bytes :=
+def extractPassword (q : RawReq) : Option Str :=
   if !(headerPassword q).isEmpty then some (headerPassword q)
   else match q.token with
     | .absent => some []
@@ -145,14 +145,14 @@ def extractPassword (q : RawReq) : Option Bytes :=
     | .text t => some t
 
 /-- `_require_auth` on the raw request -/
-def authC (verify : Bytes → Bytes → Bool) (σ : Bytes) (cookieOk : Bool) (q : RawReq) : Outcome :=
+def authC (verify : Str → Str → Bool) (σ : Str) (cookieOk : Bool) (q : RawReq) : Outcome :=
   if cookieOk then .run false
   else match extractPassword q with
     | none => .s400token
     | some pw => if isValidPassword verify σ pw then .run true else .s403auth
 
 /-- `_execute` + wrapper on the raw request (same order of checks as `serve`) -/
-def serveC (verify : Bytes → Bytes → Bool) (r : Route) (σ : Bytes) (cookieOk : Bool) (q : RawReq) : Outcome :=
+def serveC (verify : Str → Str → Bool) (r : Route) (σ : Str) (cookieOk : Bool) (q : RawReq) : Outcome :=
   if q.method = .other then .s405
   else if !q.method.safe && !q.xsrfOk then .s403xsrf
   else if r.sfsCheck && !q.method.safe && (q.sfs = .other) then .crossSite
@@ -161,12 +161,12 @@ def serveC (verify : Bytes → Bytes → Bool) (r : Route) (σ : Bytes) (cookieO
   else .run false
 
 structure World where
-  password : Bytes
+  password : Str
   issued : List Nat             -- session cookies issued so far
 deriving DecidableEq, Repr
 
 inductive Ev
-  | setPw (v fresh : Bytes)                 -- the operator changes `web_password`
+  | setPw (v fresh : Str)                 -- the operator changes `web_password`
   | req (r : Route) (q : RawReq) (newId : Nat)   -- a request; `newId` names the cookie it would be given
 deriving DecidableEq, Repr
 
@@ -175,25 +175,25 @@ def World.cookieOk (w : World) (q : RawReq) : Bool :=
   | some c => w.issued.contains c
   | none => false
 
-def stepW (verify : Bytes → Bytes → Bool) (hashOk : Bytes → Bool) (w : World) : Ev → World × Option Outcome
+def stepW (verify : Str → Str → Bool) (hashOk : Str → Bool) (w : World) : Ev → World × Option Outcome
   | .setPw v fresh => ({ w with password := (configure hashOk v fresh).getD w.password }, none)
   | .req r q newId =>
     let out := serveC verify r w.password (w.cookieOk q) q
     (if out = .run true then { w with issued := newId :: w.issued } else w, some out)
 
-def runW (verify : Bytes → Bytes → Bool) (hashOk : Bytes → Bool) : World → List Ev → World
+def runW (verify : Str → Str → Bool) (hashOk : Str → Bool) : World → List Ev → World
   | w, [] => w
   | w, e :: r => runW verify hashOk (stepW verify hashOk w e).1 r
 
 /-- the request carries a password that the configuration in force accepts -/
-def carriesValidPassword (verify : Bytes → Bytes → Bool) (σ : Bytes) (q : RawReq) : Bool :=
+def carriesValidPassword (verify : Str → Str → Bool) (σ : Str) (q : RawReq) : Bool :=
   match extractPassword q with
   | some pw => isValidPassword verify σ pw
   | none => false
 
 
 /-- how the abstract model of the first round sees a raw request under password `σ` -/
-def abstractReq (verify : Bytes → Bytes → Bool) (σ : Bytes) (cookieOk : Bool) (q : RawReq) : Req :=
+def abstractReq (verify : Str → Str → Bool) (σ : Str) (cookieOk : Bool) (q : RawReq) : Req :=
   { method := q.method, cookieValid := cookieOk,
     bearer := if (headerPassword q).isEmpty then .absent
               else if isValidPassword verify σ (headerPassword q) then .valid else .invalid,
